@@ -13,6 +13,19 @@ def numToInt (v : Json) (d : Int) : Int :=
     | .ok n => n.mantissa / (10 ^ n.exponent)
     | .error _ => d
 
+/-- replication lag is a float (seconds) in the code; the models compare it with thresholds only, so it is carried in
+milliseconds (three decimal places exactly) and every threshold it meets is scaled by the same factor where the
+configuration of a trace line is parsed -/
+def lagScale : Int := 1000
+
+def numToScaled (v : Json) (d : Int) : Int :=
+  match v.getInt? with
+  | .ok n => n * lagScale
+  | .error _ =>
+    match v.getNum? with
+    | .ok n => n.mantissa * lagScale / (10 ^ n.exponent)
+    | .error _ => d
+
 def jIntOr (j : Json) (k : String) (d : Int) : Int :=
   match jOpt j k with
   | some v => numToInt v d
@@ -34,7 +47,7 @@ def parseReplState (s : String) : ReplState :=
 def parseSlave (j : Json) : SlaveState :=
   { masterHost := jStrOr j "master_host" "", retrieved := jStrOr j "retrieved_gtid_get" "",
     executed := jStrOr j "executed_gtid_set" "",
-    lag := (jOpt j "replication_lag").map fun _ => jIntOr j "replication_lag" 0,
+    lag := (jOpt j "replication_lag").map fun v => numToScaled v 0,
     state := parseReplState (jStrOr j "replication_state" ""),
     logFile := jStrOr j "master_log_file" "", logPos := jIntOr j "master_log_pos" 0,
     ioErrno := jIntOr j "last_io_errno" 0, sqlErrno := jIntOr j "last_sql_errno" 0 }
